@@ -209,7 +209,7 @@ class SurfaceEvolver:
         
         cells['id'] = ids
         cells['edges'] = edges
-        cells["pressures"] = pressure_dict.values()
+        cells["pressures"] = [pressure_dict[int(i)] for i in ids]
 
         return cells
     
